@@ -864,6 +864,10 @@ def make_cases(ctx, tables, n_expr):
             # gigabytes (observed; not a statement about the rows returned), so such expressions are not generated
             continue
         full, legacy_ok = with_instrument(r, e, scope)
+        try:
+            cnf_shape(full)          # the governor prefix may put the whole expression under a NOT
+        except TooBig:
+            continue
         cases.append({"scope": scope, "expr": full, "name": "gen", "wt": True, "legacy": legacy_ok})
     # ill-typed mutants (type confusion the validators must refuse)
     for _ in range(max(6, n_expr // 15)):
